@@ -143,6 +143,11 @@ def gen_group(rng, gi):
         pos = rng.randrange(len(params) + 1)
         params[pos:pos] = [arr, ln] if rng.random() < 0.6 else [ln, arr]
         lenarr = (arr, ln)
+    # every third group has a bare (out) on a pointer to an aggregate, spelled directly or through a typedef alias
+    outrec = None
+    if gi % 3 == 1:
+        outrec = {'kind': 'record', 'sp': rng.choice(['FooRecAlias *', 'FooUniAlias *', 'FooRec *', 'FooUni *']), 'name': 'out_rec', 'is_ret': False}
+        params.insert(rng.randrange(len(params) + 1), outrec)
     rk = rng.choice(apigen.RETURN_KINDS)
     ret = {'kind': rk, 'sp': 'void' if rk == 'void' else rng.choice(apigen.KINDS[rk]), 'is_ret': True, 'name': None}
     if lenarr and rng.random() < 0.25:
@@ -159,7 +164,10 @@ def gen_group(rng, gi):
     sites.append(ret)
     # cap the number of annotations (one baseline callable per annotation)
     total = [(s, a) for s in sites for a in s['anns']]
-    while len(total) > (2 if lenarr else 4):
+    if outrec:
+        total = [(s2, a) for s2, a in total if s2 is not outrec]
+        outrec['anns'] = collections.OrderedDict([('out', [])])
+    while len(total) > (2 if lenarr else (3 if outrec else 4)):
         s, a = total.pop(rng.randrange(len(total)))
         del s['anns'][a]
     if lenarr:
